@@ -95,12 +95,18 @@ pub const INC_MANY: u8 = 1;
 fn gc_clock(s: &GCounter<u8>) -> VClock<u8> {
     serde_json::from_value(serde_json::to_value(s).unwrap()).unwrap()
 }
-fn counter_sum(recs_dots: impl Iterator<Item = Dot<u8>>) -> u64 {
+fn counter_sum(recs_dots: impl Iterator<Item = Dot<u8>>) -> u128 {
     let mut c: Clk = vec![];
     for d in recs_dots {
         clk_add_dot(&mut c, d.actor, d.counter);
     }
-    c.iter().map(|(_, n)| *n).sum()
+    c.iter().map(|(_, n)| *n as u128).sum()
+}
+/// `inc_many` / `dec_many` step of a command: x = 1 selects a step of 2^63, so that two actors' totals (each of which
+/// fits a u64) add up to 2^64 - the aggregate is a BigUint/BigInt and must stay exact there (seed C11-6)
+pub const HUGE: u64 = 1 << 63;
+fn many_step(c: Cmd) -> u64 {
+    if c.x == 1 { HUGE } else { 2 }
 }
 impl Sys for Gc {
     type S = GCounter<u8>;
@@ -111,7 +117,12 @@ impl Sys for Gc {
         GCounter::new()
     }
     fn gen(_h: &[Rec<Self>], s: &Self::S, a: u8, c: Cmd, _idx: usize) -> Option<Self::O> {
-        Some(if c.k == INC { s.inc(a) } else { s.inc_many(a, 2) })
+        if c.k == INC {
+            return Some(s.inc(a));
+        }
+        // a per-actor total beyond u64 is outside the type's domain: such a call is not part of the alphabet
+        gc_clock(s).get(&a).checked_add(many_step(c))?;
+        Some(s.inc_many(a, many_step(c)))
     }
     fn apply(s: &mut Self::S, o: &Self::O) {
         s.apply(*o)
@@ -123,20 +134,20 @@ impl Sys for Gc {
         format!("{}", s.read())
     }
     fn cmd_name(c: Cmd) -> String {
-        if c.k == INC { "inc(actor)".into() } else { "inc_many(actor, 2)".into() }
+        if c.k == INC { "inc(actor)".into() } else { format!("inc_many(actor, {})", many_step(c)) }
     }
     fn spec(recs: &[Rec<Self>], k: Mask, _f: Form) -> Option<String> {
         // sum over actors of the largest running total learned from that actor ...
         let sum = counter_sum(recs.iter().enumerate().filter(|(i, _)| k >> i & 1 == 1).map(|(_, r)| r.op));
         // ... which is all of the actor's increments once all of them have arrived
-        let mut steps_total = 0u64;
+        let mut steps_total = 0u128;
         let mut complete = true;
         for a in 0..4u8 {
             let all_in = recs.iter().enumerate().all(|(i, r)| r.author != a || k >> i & 1 == 1);
             if !all_in {
                 complete = false;
             }
-            steps_total += recs.iter().filter(|r| r.author == a).map(|r| if r.cmd.k == INC { 1 } else { 2 }).sum::<u64>();
+            steps_total += recs.iter().filter(|r| r.author == a).map(|r| if r.cmd.k == INC { 1 } else { many_step(r.cmd) as u128 }).sum::<u128>();
         }
         if complete && steps_total != sum {
             return Some(format!("{} (all increments arrived: expected {})", sum, steps_total));
@@ -175,11 +186,18 @@ impl Sys for Pn {
         PNCounter::new()
     }
     fn gen(_h: &[Rec<Self>], s: &Self::S, a: u8, c: Cmd, _idx: usize) -> Option<Self::O> {
+        let (p, n) = pn_clocks(s);
         Some(match c.k {
             INC => s.inc(a),
-            INC_MANY => s.inc_many(a, 2),
+            INC_MANY => {
+                p.get(&a).checked_add(many_step(c))?;
+                s.inc_many(a, many_step(c))
+            }
             DEC => s.dec(a),
-            _ => s.dec_many(a, 2),
+            _ => {
+                n.get(&a).checked_add(many_step(c))?;
+                s.dec_many(a, many_step(c))
+            }
         })
     }
     fn apply(s: &mut Self::S, o: &Self::O) {
@@ -192,14 +210,19 @@ impl Sys for Pn {
         format!("{}", s.read())
     }
     fn cmd_name(c: Cmd) -> String {
-        ["inc(actor)", "inc_many(actor, 2)", "dec(actor)", "dec_many(actor, 2)"][c.k as usize].into()
+        match c.k {
+            INC => "inc(actor)".into(),
+            INC_MANY => format!("inc_many(actor, {})", many_step(c)),
+            DEC => "dec(actor)".into(),
+            _ => format!("dec_many(actor, {})", many_step(c)),
+        }
     }
     fn spec(recs: &[Rec<Self>], k: Mask, _f: Form) -> Option<String> {
         let sel = |pos: bool| recs.iter().enumerate().filter(move |(i, r)| k >> i & 1 == 1 && matches!(r.op.dir, pncounter::Dir::Pos) == pos).map(|(_, r)| r.op.dot);
-        let (p, n) = (counter_sum(sel(true)) as i64, counter_sum(sel(false)) as i64);
+        let (p, n) = (counter_sum(sel(true)) as i128, counter_sum(sel(false)) as i128);
         let full = k == (1u32 << recs.len()) - 1;
         if full {
-            let want: i64 = recs.iter().map(|r| [1i64, 2, -1, -2][r.cmd.k as usize]).sum();
+            let want: i128 = recs.iter().map(|r| [1i128, many_step(r.cmd) as i128, -1, -(many_step(r.cmd) as i128)][r.cmd.k as usize]).sum();
             if want != p - n {
                 return Some(format!("{} (all ops arrived: expected {})", p - n, want));
             }
